@@ -224,6 +224,11 @@ if __name__ == "__main__":
         "limiter: the atomic sections are the mutex-protected methods (AddDialJob, finishedDial, clearAllPeerDials) plus the two unlocked points of executeDial (the initial cancelled() test, the return of dialFunc); context cancellation may fall anywhere between them; theorems hold for every interleaving at that granularity",
         "limiter: Go int modelled as unbounded Z; logging ignored; a job is (identity, peer, shouldConsumeFd(addr), context id) - shouldConsumeFd itself is evaluated by the real code in the harness",
         "limits: 0 <= fdLimit, perPeerLimit for the caps, 1 <= for the no-residue theorem; the compiled-in ConcurrentFdDials / DefaultPerPeerRateLimit are re-read each run (obligation c05_default_caps_wf)",
+        "worker: one event = one iteration of the select in dialWorker.loop; theorems hold for every order of request / timer / dial-update / close events and every environment answer carried by the event (existing connection, ranking, back-off table, addConn verdict, clock). wf_run: request ids fresh, each ranking lists an address once (c05_ranker_is_permutation + ma.Unique), a dial update arrives only for a dial in flight and is never ErrDialBackoff itself",
+        "worker liveness is stated at quiescence (queue empty, nothing in flight): that the timer fires and every started dial reports are environment hypotheses; promptness of cancellation in wall-clock terms is not modelled",
+        "PARTIAL: the limiter monitor's clauses (caps, residue, live job attempted, dial invoked once) and the worker monitor's clause 3 (response justified) are judged on the implementation's traces only; the theorems prove the corresponding state invariants of the models (caps, no residue, at-most-once, exactly-once at quiescence, handed-once, eligible attempted), not `monitor(model_trace) = ok` as one statement. dial_sync (refcount, caller cancellation) and whole Swarm.DialPeer with concurrent callers are NOT modelled or driven in this round; concurrency finer than the listed atomic sections is covered by the correspondence only",
+        "ranker: addresses are the tuple of answers of the predicates the ranker evaluates (recorded from the real predicates); sort.Slice is a Section hypothesis (permutes its input), instantiated with stable insertion sort (what sort.Slice runs for <= 12 elements; cases have <= 10 addresses)",
+        "DNS resolution, black-hole detector and back-off expiry are inputs (BackoffBase is set to 24h in the worker harness so entries do not expire in a case)",
     ]
     standard_flow(ctx, dict(
         consts=consts,
@@ -238,6 +243,14 @@ if __name__ == "__main__":
              "synctest bubble (fdLimit, perPeerLimit 1..3 mostly; 1-3 peers; TCP, QUIC, relay, WS, WebTransport addresses so that "
              "shouldConsumeFd takes both values; shared contexts); after every stimulus fdConsuming, activePerPeer, both queues and the "
              "dialFunc invocations in progress are compared with the Coq model and judged by the monitor. Every case ends with all "
-             "contexts cancelled and everything released. Non-trivial = some job had to wait for a token; distinct = distinct case lines.",
+             "contexts cancelled and everything released. Non-trivial = some job had to wait for a token. "
+             "worker: seeded random cases against the real dialWorker on a real Swarm with scripted transports (every Dial parks until told how "
+             "to end: fail / conn / context.Canceled / handshake progress / conn refused by addConn) in a synctest bubble with the real clock on "
+             "virtual time: 1-6 requests with different address subsets, scripted ranking delays, simultaneous-connect and force-direct flags, "
+             "1-7 addresses over TCP/QUIC/WS/WebTransport/relay/undialable/unspecified, back-off entries, inbound connections, close; after every "
+             "stimulus the responses, transport dials, trackedDials, pendingRequests and connected flag are compared with the model and judged by "
+             "the monitor; every case is drained to quiescence. Non-trivial = a request was pending and a dial started. "
+             "ranker: DefaultDialRanker on 0-10 real multiaddrs of 19 kinds, output compared element by element. Non-trivial = >= 3 addresses "
+             "with both IP versions. distinct = distinct case lines.",
         describe=describe, key=key, what=what, crosscheck=150,
     ))
